@@ -179,7 +179,7 @@ def monotone_rule(F, G, rep, R):
                     tys = [(c.get("ty") or "") for c in (x["l"], x["r"])]
                     if any("io::slippi::Version" in t for t in tys) or any(c.get("k") == "Field" and "io::slippi::Version" in (c["base"].get("ty") or "") for c in (strip(x["l"]), strip(x["r"]))):
                         rep.ob("monotone.compare", tir.in_macro(x, "assert_eq", "debug_assert_eq"), fn, "compare", "%s: direct comparison on a Version value in the reader (%s): not a monotone gte/lt gate" % (tir.sp(x), tir.pretty(x)[:60]), tir.sp(x))
-    rep.floor("version gates in the reader's reachable set", n, 56)
+    rep.floor("version gates in the reader's reachable set", n, 40)
     order.rule_gte(F, rep)
 
 
